@@ -234,7 +234,9 @@ fn eval_monthname<'a>(args: &[Option<Value<'a>>]) -> Option<Value<'a>> {
         "November",
         "December",
     ];
-    Some(Value::Text(Cow::Borrowed(names[(month - 1) as usize])))
+    // the month comes from the text as written ('2024-13-45', '0000-00-00'): no name, no panic
+    let name = *names.get((month as usize).wrapping_sub(1))?;
+    Some(Value::Text(Cow::Borrowed(name)))
 }
 
 fn eval_dayofweek<'a>(args: &[Option<Value<'a>>]) -> Option<Value<'a>> {
